@@ -9,6 +9,10 @@ from ..engine import Prop, Verdict
 COMMENTS = ["# note", "#", "# x = 1", "#!", "# def end class", "   # indented", "# \"quote"]
 
 
+# bodies of =begin/=end block comments (0-3 lines each; the number of tokens in a body must not matter)
+BLOCK_BODY = ["p 1", "one", "one two three", "x = 1", "def broken(", "end", "note: a = b", "1 + ", "class Foo", "\"open", "it's", ""]
+
+
 _LIT = re.compile(r"""\"(?:[^\"\\\n]|\\.)*\"|'(?:[^'\\\n]|\\.)*'|\#.*""")
 
 
@@ -30,7 +34,7 @@ class Check(Prop):
     ID = "C06"
     RULE = ("cases = (program, layout edit). Programs: generated from the Ruby-subset grammar (exact statement boundaries incl. bodies of "
             "class/def/if/unless/elsif/else/case-when/case-in/while/blocks) and golden corpus programs with a conservative boundary filter. Edits: insert "
-            "1-3 blank lines or comment-only lines at a boundary; widen a string literal by 1-3 embedded newlines (raw, or as backslash-newline continuations); drop or add the final "
+            "1-3 blank lines or comment-only lines or a =begin/=end block comment (0-3 body lines, at column 0) at a boundary; widen a string literal by 1-3 embedded newlines (raw, or as backslash-newline continuations); drop or add the final "
             "newline. Oracle: records of `ti -i` (diagnostics + hints; plain mode sampled too) of the edited program equal the base "
             "records with rows after the edit shifted by the number of added lines, compared as multisets; rows of the widened "
             "statement itself are not compared. Non-trivial = the base output has a record after the edit point (for the final-newline "
@@ -76,6 +80,7 @@ class Check(Prop):
             st.integers(1, 3).map(lambda n: [""] * n),
             st.lists(st.sampled_from(COMMENTS), min_size=1, max_size=3),
             st.lists(st.sampled_from(COMMENTS + ["", "  "]), min_size=1, max_size=3),
+            st.lists(st.sampled_from(BLOCK_BODY), min_size=0, max_size=3).map(lambda b: ["=begin"] + b + ["=end"]),
         )
 
         @st.composite
@@ -90,7 +95,8 @@ class Check(Prop):
                 _, row, _ = rb.insert(tree, path, idx, [{"t": "MARK"}])
                 new = draw(ins_lines)
                 ind = "  " * depth
-                new = [(ind + l if l.strip() and draw(st.booleans()) else l) for l in new]
+                if new[0] != "=begin":
+                    new = [(ind + l if l.strip() and draw(st.booleans()) else l) for l in new]
                 return {"src": src, "edit": {"type": "insert", "row": row, "lines": new, "ctx": ctx}}
             if kind <= 7:
                 lines = src.split("\n")
@@ -149,7 +155,7 @@ class Check(Prop):
         if e.get("ctx"):
             labels.append("in-" + e["ctx"])
         if e["type"] == "insert":
-            labels.append("comment" if any(l.strip().startswith("#") for l in e["lines"]) else "blank")
+            labels.append("block-comment" if e["lines"][0] == "=begin" else "comment" if any(l.strip().startswith("#") for l in e["lines"]) else "blank")
         flags = ["-i"] if int(key[:2], 16) % 4 else []
         labels.append("flags:" + (flags[0] if flags else "plain"))
         try:
@@ -174,6 +180,10 @@ class Check(Prop):
             e = case["edit"]
             if e["type"] != params.get("type", e["type"]):
                 return False
+            if "block_body" in params:
+                if e["type"] != "insert" or not e["lines"] or e["lines"][0] != "=begin":
+                    return False
+                return any(re.search(params["block_body"], l) for l in e["lines"][1:-1])
             if "prev_line" in params:
                 if e["type"] != "insert":
                     return False
